@@ -390,7 +390,12 @@ class C03(Prop):
             "declared duration. c03.run: the same comparison reached through the real runTestCasesForServer (in-process server, recording fake "
             "clientRunner reporting the actual result; reference and non-reference client): every expectation shape x identical / every status "
             "deviation / sampled other deviations and rewrites, expected x reported status grid, random pairs; also required: the reported "
-            "message and the test case are unchanged afterwards (proto.Equal with a copy taken before). c03.canon: canonicalizeHeaderVals on every string of length <=5 over "
+            "message and the test case are unchanged afterwards (proto.Equal with a copy taken before); run cases with a list of alternative "
+            "allowed codes and the reported code the first / middle / last alternative, an unlisted code, the primary code. c03.rundef: the "
+            "DEFINITION that reaches assert through the real runner, read back by probes - the expected result reported with each code 1..16 "
+            "(accepted = primary + other_allowed_error_codes of the library's case) and with all metadata as headers / as trailers (accepted "
+            "iff the library's stream type allows the merged form): every expectation shape x {three alternatives, none} x own / every other "
+            "stream type, random results. c03.canon: canonicalizeHeaderVals on every string of length <=5 over "
             "{a,space,comma} and random lists; c03.merge: mergeHeaders + merged check on random triples. "
             "non-trivial = the assertion reported at least one discrepancy, or a canonical list differs from its input")
     trusted_base = ("Coq 8.16.1 kernel (vm_compute used)", "extraction (ExtrOcamlBasic only) + ocaml/driver.ml",
@@ -406,13 +411,18 @@ class C03(Prop):
                   "documented leniencies (assert_iff), with one corollary per deviation kind (universally quantified position) and per leniency; "
                   "the grace window's width is the duration the constant is DECLARED with (value x unit regenerated from the source; "
                   "grace_is_declared_duration), and the way from the client's report to the assertion in runTestCasesForServer is modelled as "
-                  "the identity for every client (runner_hands_over_reported_result, run_verdict_iff, run_dev_status); "
+                  "the identity for every client (runner_hands_over_reported_result, run_verdict_iff, run_dev_status), and so is the way of the "
+                  "library's test-case definition to it (runner_hands_over_definition: other allowed codes and stream type arrive as the library "
+                  "holds them - run_len_other_code, run_dev_code, run_no_merge_elsewhere; probe_code_allowed / probe_code_flagged: the probes of "
+                  "c03.rundef read the accepted codes back); "
                   "the model is tied to results.go and to the runner's response callback by a differential run over every single deviation / "
                   "rewrite of generated expectations.")
     level_note = ("Trusted: Coq kernel, extraction, OCaml driver, harness; model-to-code correspondence is sampled (systematic single deviations "
                   "and rewrites + random), not proved. Any equality is abstracted to (type, content); the value canonicalisation in the "
                   "specification is the model's own function, characterised by canon_idempotent / canon_join / canon_split. "
-                  "The runner glue is covered for the response callback only (one test case, no TLS, no reference-server side band); which "
+                  "The runner glue is covered for the response callback only (one test case, no TLS, no reference-server side band; the definition "
+                  "handed to assert is observed through verdicts on probes, i.e. exactly the fields assert reads today: expected response, other "
+                  "allowed codes, stream type in {unary, client stream} or not); which "
                   "test-case definition reaches assert for a gRPC-peer variant is C07's subject (same_but_name).")
     technique = "Coq proof of model = agreement specification (iff) + corollaries; differential model-vs-Go correspondence"
 
